@@ -24,7 +24,9 @@ func (r ConditionalRule) String() string {
 }
 
 func (r ConditionalRule) Negate() Rule {
-	return NewConditional(!r.Negated, r.IfRule(), r.ThenRule())
+	body := make([]Rule, len(r.Body))
+	copy(body, r.Body)
+	return newConditional(!r.Negated, &body)
 }
 
 
